@@ -318,6 +318,7 @@ impl ParsedPacket {
         if self.packet().len() + rr_len > DNS_MAX_UNCOMPRESSED_SIZE {
             bail!(DSError::PacketTooLarge)
         }
+        let edns = self.opt_rr_summary(section, &rr)?;
         self.rrcount_inc(section)?;
         let insertion_offset = self.insertion_offset(section)?;
         let packet_len = self.packet().len();
@@ -356,10 +357,72 @@ impl ParsedPacket {
             }
             Section::Additional => {
                 self.offset_additional = self.offset_additional.or(Some(insertion_offset));
+                if let Some((edns_count, ext_rcode, edns_version, ext_flags, max_payload)) = edns {
+                    self.offset_edns = Some(insertion_offset + 1 + DNS_OPT_RR_HEADER_SIZE);
+                    self.edns_count = edns_count;
+                    self.ext_rcode = Some(ext_rcode);
+                    self.edns_version = Some(edns_version);
+                    self.ext_flags = Some(ext_flags);
+                    self.max_payload = max_payload;
+                }
             }
             _ => panic!("insertion_offset() is not suitable to adding EDNS pseudorecords"),
         }
         Ok(())
+    }
+
+    /// If `rr` is an `OPT` pseudo-record, checks that it can be added to `section` (a single
+    /// one, in the additional section, owned by the root, with well-formed options) and returns
+    /// the EDNS summary that parsing it would produce: option count, extended rcode, version,
+    /// extended flags and maximum payload size.
+    fn opt_rr_summary(
+        &self,
+        section: Section,
+        rr: &r#gen::RR,
+    ) -> Result<Option<(u16, u8, u8, u16, usize)>, Error> {
+        if section == Section::Question {
+            return Ok(None);
+        }
+        let rdata = rr.rdata();
+        let name_len = match rr.packet.len().checked_sub(rdata.len() + DNS_RR_HEADER_SIZE) {
+            None => return Ok(None),
+            Some(name_len) => name_len,
+        };
+        let header = &rr.packet[name_len..];
+        if BigEndian::read_u16(&header[DNS_RR_TYPE_OFFSET..]) != u16::from(Type::OPT) {
+            return Ok(None);
+        }
+        if section != Section::Additional || self.offset_edns.is_some() {
+            bail!(DSError::InvalidPacket(
+                "Only one OPT record is allowed, in the additional section"
+            ));
+        }
+        if name_len != 1 {
+            bail!(DSError::InvalidPacket(
+                "OPT RRs must have the root domain as the domain name"
+            ));
+        }
+        let mut edns_count: u16 = 0;
+        let mut offset = 0;
+        while offset < rdata.len() {
+            if rdata.len() - offset < DNS_EDNS_RR_HEADER_SIZE {
+                bail!(DSError::PacketTooSmall);
+            }
+            let len = BigEndian::read_u16(&rdata[offset + DNS_EDNS_RR_RDLEN_OFFSET..]) as usize;
+            offset += DNS_EDNS_RR_HEADER_SIZE;
+            if rdata.len() - offset < len {
+                bail!(DSError::PacketTooSmall);
+            }
+            offset += len;
+            edns_count += 1;
+        }
+        Ok(Some((
+            edns_count,
+            header[DNS_OPT_RR_EXT_RCODE_OFFSET],
+            header[DNS_OPT_RR_EDNS_VERSION_OFFSET],
+            BigEndian::read_u16(&header[DNS_OPT_RR_EDNS_EXT_FLAGS_OFFSET..]),
+            BigEndian::read_u16(&header[DNS_OPT_RR_MAX_PAYLOAD_OFFSET..]) as usize,
+        )))
     }
 
     pub fn insert_rr_from_string(&mut self, section: Section, rr_str: &str) -> Result<(), Error> {
